@@ -8,7 +8,7 @@ from vcheck import *
 P = "Cppcms.C16.Props."
 OBLIGATIONS = [
     (P + "md5_compress_eq_rfc1321", "translated md5_process (64 SET lines, T1..T64, F/G/H/I, ROTATE_LEFT) = compression function transcribed from RFC 1321 3.4, for every chaining value and block"),
-    #(P + "sha1_compress_eq_fips180", "translated sha1::process_block (schedule, f/k arms, rotates) = compression function transcribed from FIPS 180-4 6.1.2"),
+    (P + "sha1_compress_eq_fips180", "translated sha1::process_block (schedule, f/k arms, rotates) = compression function transcribed from FIPS 180-4 6.1.2"),
     (P + "md5_stream_eq_spec", "for every stale buffer content, every list of append calls (each < 2^31 bytes): readout = RFC 1321 MD5 of the concatenation"),
     (P + "md5_session_eq_spec", "one md5 object used for any number of messages, any chunkings: every read-out is the MD5 of its message (reuse after readout)"),
     (P + "md5_append_int_truncation", "documented excluded point: an append of exactly 2^31 bytes is silently ignored (size_t -> int)"),
